@@ -60,6 +60,14 @@ CHECKS = {
             'payload checked against pre/post snapshots, one _on_bound per event; after every ordinary step the derived '
             'facts of every node equal those of a fresh deep copy.',
             BASE_NOTE),
+    'C10': ('E2-enum', 'model_checking',
+            'exhaustive enumeration of parser inputs / key sequences / nested values, plus explicit-state BFS to closure of KeyPathSet against a Python set',
+            'All strings over a 6-symbol alphabet up to length 6 (7 thorough) through the parser; all key sequences up to '
+            'length 3 over 17 hostile keys: print/parse round trip with key types, arithmetic and a total order on all '
+            'pairs/triples; all nested values of the grammar: traversal, lookup by path and by printed path, query, rebind '
+            'by function, flatten/canonicalize (lossless mode); KeyPathSet: every operation in every reachable state of '
+            'two sets over a 6-path universe against Python sets.',
+            BASE_NOTE),
     'C02': ('E1-statespace', 'model_checking',
             'explicit-state BFS to closure over the real pg.List/pg.Dict with a lock-step plain list/dict reference model',
             'Every (reachable content, operation) pair over the list/dict API menu with all indices/slices/steps within '
